@@ -181,6 +181,23 @@ def events():
         p.astate["error"][max(p.astate["ac"])] = "ER: 12" if k % 2 else None
         p.push_status("ac")
 
+    def st_ac0_error(p, k):
+        # the status changes, the error code stays the same
+        s = p.astate["ac"][0]
+        s.update({"error": 7, "fan": "high" if s["fan"] != "high" else "low"})
+        p.astate["error"][0] = "ER: 07"
+        p.push_status("ac")
+
+    def lose_error_reply(p, k):
+        # both consoles drop their next answer to an error-information request (a lost frame)
+        for w in p.w.values():
+            def hook(kind, fr, answers, w=w):
+                if kind == "req-error":
+                    w.console.answer_hook = None
+                    return []
+                return answers
+            w.console.answer_hook = hook
+
     def st_zone0(p, k):
         p.astate["zone"][0].update({"percent": (35 + 10 * k) % 100, "method": "percent", "power": "turbo" if k % 2 else "off"})
         p.push_status("zone")
@@ -210,6 +227,7 @@ def events():
     return [
         ("ac0-status", st_ac0), ("ac1-status", st_ac1), ("zone0-status", st_zone0), ("zone2-status", st_zone2),
         ("timer-status", st_timer), ("version", st_version), ("reconnect", reconnect),
+        ("ac0-error-same-code", st_ac0_error), ("lose-next-error-reply", lose_error_reply),
         ("ac0.set_mode(HEAT)", cmd("ac0.set_mode(HEAT)", lambda at, acs, zs: (lambda: acs[0].set_mode(A.AcMode.HEAT, power_on=True)))),
         ("ac0.set_fan_speed(TURBO)", cmd("ac0.set_fan_speed(TURBO)", lambda at, acs, zs: (lambda: acs[0].set_fan_speed(A.AcFanSpeed.TURBO)))),
         ("zone0.set_damper(30)", cmd("zone0.set_damper_percentage(30)", lambda at, acs, zs: (lambda: zs[0].set_damper_percentage(30)))),
